@@ -541,7 +541,15 @@ def c13_r8(ctx):
                             al.add(t.id)
             return al
         pa, ua = dcs(prep), dcs(unprep)
-        scaled = [b for b in ast.walk(prep.node) if isinstance(b, ast.BinOp) and isinstance(b.op, ast.Mult) and
+        # the scaling may sit in a private method prepare_number() calls on self
+        pnodes = [prep]
+        for c in norm.calls_in(prep.node):
+            if isinstance(c.func, ast.Attribute) and norm.canon(c.func.value) == "self" and c.func.attr.startswith("_"):
+                h = prog.lookup(cls, c.func.attr)
+                if h is not None and h not in pnodes:
+                    pnodes.append(h)
+                    pa |= dcs(h)
+        scaled = [b for pn in pnodes for b in ast.walk(pn.node) if isinstance(b, ast.BinOp) and isinstance(b.op, ast.Mult) and
                   (_is_pow10(b.right, lambda e: norm.canon(e) in pa) or _is_pow10(b.left, lambda e: norm.canon(e) in pa))]
         if not scaled:
             continue  # nothing to undo
